@@ -112,14 +112,19 @@ class C09(core.Property):
             "set_limit calls on Fixed/Dynamic/WeightedConcurrency; (one case in six, hv/props/c09_extra.py) bulkhead-engine = 2–8 (thorough 12) requests, "
             "max_concurrent 1–3, wait queue 0–3, wait time None/1–4 ticks, hold 0–3 ticks or immediate return; tpool-engine = 2–12 tasks, 1–3 workers, queue capacity "
             "None/0–3, processing 0–3 ticks; preempt-direct = 3–40 acquire/release calls, capacity 1–4, amounts 1–cap plus malformed, priorities 0–3 with ties, preempt "
-            "flag, double release, release of a preempted / not-yet-given / unknown grant. A case is non-trivial when at "
+            "flag, double release, release of a preempted / not-yet-given / unknown grant; in 70% of the preempt cases acquires carry a callback program run inside the grant's "
+            "on_preempt callback on the same resource (release of its own grant, of dead / unknown grants; with HV_C09_PREEMPT_CB_LIFT=1 also release of another holder, "
+            "of the co-victim of the same round, of a waiter, nested acquires with/without preemption carrying programs themselves, counter queries — "
+            "restricted until fixes/C09-preempt-callback-reentrancy.diff is in the tree). A case is non-trivial when at "
             "least one caller was queued and at least one was woken/handed over (pool: at least one caller waited, an abandonment changed the pool, "
             "an idle connection was closed or a warm-up connection was parked); distinct = distinct case content")
     trusted_base = [
         "hv/props/c09_extra.py adapters: Bulkhead and ThreadPool are subclassed only to log public counters around the public handle_event / handle_queued_event; "
         "the handle_event of ThreadPool.queue and ThreadPool.driver (public properties) is wrapped per instance; which request a _bh_response / _bh_timeout delivery "
         "belongs to is read from the request_id in the events the public handle_event returned; whether a timeout removed a waiter is read from queue_depth; "
-        "preempt-direct: woken waiters are read from the public SimFuture.is_resolved, eviction order from the on_preempt callbacks",
+        "preempt-direct: woken waiters are read from the public SimFuture.is_resolved, eviction order from the on_preempt callbacks; the callbacks registered by the harness "
+        "log a line when they fire and then perform the case's callback program through the public acquire()/release() of the same resource, logging the public counters "
+        "from inside the callback; acquire calls are numbered in the order they return",
         "hv/props/c09.py adapters (drive the real objects, canonical transcript)",
         "engine families: the order and clock values of the calls are taken from the implementation run (schedule replay); "
         "the engine's own ordering rule is C01/C02's subject",
@@ -193,7 +198,12 @@ class C09(core.Property):
                      "bookkeeping above",
         "preemptible resource": "theorems (incl. preempt_trace_satisfies_spec) are for wakeAfterPreempt = true, the repaired code "
                                 "(fixes/C09-extra-preempt-wake-after-preempt.diff, applied); for the unrepaired variant the violation is the decided witness "
-                                "preempt_current_leaves_head_grantable, on which the judge answers preempt/head/grantable-but-blocked (example in PreemptSpec.lean)",
+                                "preempt_current_leaves_head_grantable, on which the judge answers preempt/head/grantable-but-blocked (example in PreemptSpec.lean). "
+                                "The preempt_cb_* theorems and preempt_release_idempotent are about the re-entrant machine of HappyModel/C09/PreemptCb.lean (the model the driver "
+                                "runs for preempt-direct), which has the repaired order of fixes/C09-preempt-callback-reentrancy.diff (capacity taken back before on_preempt fires, "
+                                "released snapshot members skipped); they hold for every program table and every fuel (every tick boundary). At the pinned commit the property is "
+                                "false on corpus/C09/pending/preempt-callback-*.json (ValueError out of acquire() with the victim's amount lost; held+available != capacity inside "
+                                "callbacks), which is why those inputs are generated only with HV_C09_PREEMPT_CB_LIFT=1",
         "not modelled": "ThreadPool with a LIFO or priority queue_policy, user completion hooks on requests sent through a Bulkhead, a Bulkhead in front of a "
                         "QueuedResource target (fixes/C09-extra-bulkhead-queued-target.md: the permit is returned when the target enqueues, not when it finishes), "
                         "PreemptibleResource inside an engine",
